@@ -294,6 +294,9 @@ func c04Run(t *testing.T, rep *verifReport, caFixture string, ed bool) {
 		}, all, nil},
 		{"kind-absent", func(c verifClaims) { delete(c, "token_type"); delete(c, "type") }, all, nil},
 		{"nbf+1h", func(c verifClaims) { c["nbf"] = now.Add(time.Hour).Unix() }, sts, map[string]bool{"code": true, "access": true}},
+		// not yet valid by less than the minute a JWT library's default leeway forgives (set relative to the moment of use)
+		{"nbf+45s", func(c verifClaims) { c["nbf"] = time.Now().Add(45 * time.Second).Unix() }, sts, map[string]bool{"code": true, "access": true}},
+		{"nbf+20s", func(c verifClaims) { c["nbf"] = time.Now().Add(20 * time.Second).Unix() }, sts, map[string]bool{"code": true, "access": true}},
 		{"expired-1h", func(c verifClaims) { c["exp"] = now.Add(-time.Hour).Unix() }, map[string]bool{"session": true, "cli": true, "code": true, "access": true}, map[string]bool{"storage": true}},
 		{"expired-2s", func(c verifClaims) { c["exp"] = now.Add(-2 * time.Second).Unix() }, map[string]bool{"session": true, "cli": true, "code": true, "access": true}, map[string]bool{"storage": true}},
 		// no validity window at all: expiry at the epoch, or the claim left out
